@@ -449,6 +449,21 @@ def rule_header(run, F, cfg):
     run.ob("C08.4.header", "serialize-writes-magic+0", ok_s,
            "SerializeFormat::serialize starts the buffer with ADBLOCK_RUST_DAT_MAGIC followed by "
            "the version byte 0", site=s.loc(0), config=cfg)
+    # ... then the body: rmp_serde::encode::write(&mut output, self) into the same buffer, and that buffer is returned
+    wr = [(b, s.vexpr_call(t)) for b, t in s.calls(r"^rmp_serde::encode::write$|rmp_serde::encode::write_named$|rmp_serde::to_vec")]
+    pushes = [b for b, t in s.calls(r"^std::vec::Vec::push$")]
+    ret = s.expr_local(0)
+    ok_w = len(wr) == 1 and bool(re.search(r"\(\$\w+, \$self\)$", wr[0][1])) and bool(pushes) and all(s.dominates(p_, wr[0][0]) for p_ in pushes) \
+        and "ADBLOCK_RUST_DAT_MAGIC" in ret
+    run.ob("C08.4.header", "serialize-writes-body-after-header", ok_w,
+           f"after the header, serialize encodes `self` into the same buffer (rmp_serde::encode::write) and returns it "
+           f"({[w for _, w in wr]}; result {ret[:80]})", site=s.loc(0), config=cfg)
+    # v0 decoder skips exactly the header: payload = serialized[MAGIC.len() + 1..]
+    d0 = F.fn("data_format::v0::DeserializeFormat::deserialize")
+    sl = [d0.vexpr_call(t) for b, t in d0.calls(r"index$") if "RangeFrom" in d0.vexpr_call(t)]
+    ok_sl = len(sl) == 1 and bool(re.search(r"RangeFrom\{start: \((4|core::slice::len\(data_format::ADBLOCK_RUST_DAT_MAGIC\)|PtrMetadata\(.*MAGIC.*\)) AddWithOverflow 1\)\.0\}", sl[0]))
+    run.ob("C08.4.header", "decoder-skips-header", ok_sl,
+           f"the v0 decoder reads the payload from serialized[MAGIC.len() + 1..] ({sl})", site=d0.loc(0), config=cfg)
     de = " ".join(d.expr_call(t) for b, t in d.calls())
     ok_d = "ADBLOCK_RUST_DAT_MAGIC" in de and "starts_with" in de
     v0call = d.calls(r"^data_format::v0::DeserializeFormat::deserialize$")
